@@ -485,33 +485,44 @@ structure Scan where
 
 def setAdd (s : List Int) (x : Int) : List Int := if s.contains x then s else s ++ [x]
 
+/-- the body of `for key in die.attributes` (the scan for list-valued attributes) -/
+def scanAttr (cu : Cu) (hasViews : Bool) (st : Scan) (a : Attr) : R Scan :=
+  if (a.name != "DW_AT_location" || !hasViews) && attributeHasLocation a.name a.form cu.version
+      && attributeHasLocList a.name a.form cu.version then do
+    let listOffset ← a.value.asInt
+    return { st with allOffsets := setAdd st.allOffsets listOffset,
+                     cuMap := dictSet st.cuMap listOffset cu }
+  else return st
+
+/-- the `if 'DW_AT_GNU_locviews' in die.attributes` block -/
+def scanViews (cu : Cu) (st : Scan) (d : List Attr) : R Scan :=
+  match findAttr d "DW_AT_GNU_locviews" with
+  | some va =>
+    match findAttr d "DW_AT_location" with
+    | some la => do
+      if !attributeHasLocList la.name la.form cu.version then throw .assertion
+      let viewsOffset ← va.value.asInt
+      let listOffset ← la.value.asInt
+      return { st with locviews := dictSet st.locviews viewsOffset listOffset,
+                       cuMap := dictSet st.cuMap listOffset cu,
+                       allOffsets := setAdd st.allOffsets viewsOffset }
+    | none => throw .assertion
+  | none => pure st
+
+/-- the body of `for die in cu.iter_DIEs()` -/
+def scanDie (env : Env) (secs : Secs) (cu : Cu) (st : Scan) (die : List RawAttr) : R Scan := do
+  let d ← dieAttrs env secs cu die
+  let hasViews := (findAttr d "DW_AT_GNU_locviews").isSome
+  let st ← scanViews cu st d
+  d.foldlM (scanAttr cu hasViews) st
+
+/-- the body of `for cu in self.dwarfinfo.iter_CUs()` -/
+def scanCu (env : Env) (secs : Secs) (ver5 : Bool) (st : Scan) (cu : Cu) : R Scan :=
+  if decide (cu.version ≥ 5) == ver5 then cu.dies.foldlM (scanDie env secs cu) st else pure st
+
 /-- the DIE scan at the start of `iter_location_lists` -/
 def scanDies (env : Env) (secs : Secs) (ver5 : Bool) (cus : List Cu) : R Scan := do
-  let mut st : Scan := {}
-  for cu in cus do
-    let cuVer := cu.version
-    if decide (cuVer ≥ 5) == ver5 then
-      for die in cu.dies do
-        let d ← dieAttrs env secs cu die
-        let hasViews := (findAttr d "DW_AT_GNU_locviews").isSome
-        match findAttr d "DW_AT_GNU_locviews" with
-        | some va =>
-          match findAttr d "DW_AT_location" with
-          | some la =>
-            if !attributeHasLocList la.name la.form cuVer then throw .assertion
-            let viewsOffset ← va.value.asInt
-            let listOffset ← la.value.asInt
-            st := { st with locviews := dictSet st.locviews viewsOffset listOffset,
-                            cuMap := dictSet st.cuMap listOffset cu,
-                            allOffsets := setAdd st.allOffsets viewsOffset }
-          | none => throw .assertion
-        | none => pure ()
-        for a in d do
-          if (a.name != "DW_AT_location" || !hasViews) && attributeHasLocation a.name a.form cuVer
-              && attributeHasLocList a.name a.form cuVer then
-            let listOffset ← a.value.asInt
-            st := { st with allOffsets := setAdd st.allOffsets listOffset,
-                            cuMap := dictSet st.cuMap listOffset cu }
+  let st ← cus.foldlM (scanCu env secs ver5) {}
   return { st with allOffsets := sortedSet st.allOffsets }
 
 /-- `_parse_locview_pairs(locviews)`: the `while stream.tell() < list_offset` loop -/
@@ -576,6 +587,26 @@ def locSectionLoop (env : Env) (secs : Secs) (l : Lists) (sc : Scan) (inner : Na
         locSectionLoop env secs l sc inner fuel p' idx' acc'
     else .ok acc.reverse
 
+/-- the `for offset in all_offsets` loop of the DWARF < 5 branch -/
+def locV4Loop (env : Env) (l : Lists) (sc : Scan) : List Int → List (List Val) → R (List (List Val))
+  | [], out => .ok out
+  | offset :: rest, out =>
+    let listOffset := (dictGet? sc.locviews offset).getD offset      -- `locviews.get(offset, offset)`
+    match dictGet? sc.cuMap listOffset with
+    | none => .error .keyError
+    | some cu =>
+      if cu.version < 5 then
+        match seekInt offset with
+        | .error e => .error e
+        | .ok pos =>
+          match parseLocviewPairs env l sc.locviews pos with
+          | .error e => .error e
+          | .ok (pairs, p) =>
+            match parseLocV4 env l p with
+            | .error e => .error e
+            | .ok (es, _) => locV4Loop env l sc rest (out ++ [pairs ++ es])
+      else locV4Loop env l sc rest out
+
 /-- `LocationLists.iter_location_lists()` -/
 def iterLocationLists (env : Env) (secs : Secs) (l : Lists) (cus : List Cu) : R (List (List Val)) := do
   let ver5 := decide (l.version ≥ 5)
@@ -584,17 +615,74 @@ def iterLocationLists (env : Env) (secs : Secs) (l : Lists) (cus : List Cu) : R 
     let budget := 2 * (l.data.length + sc.allOffsets.length) + 8
     locSectionLoop env secs l sc budget budget 0 0 []
   else
-    let mut out : List (List Val) := []
-    for offset in sc.allOffsets do
-      let listOffset := (dictGet? sc.locviews offset).getD offset      -- `locviews.get(offset, offset)`
-      match dictGet? sc.cuMap listOffset with
-      | none => throw .keyError
-      | some cu =>
-        if cu.version < 5 then
-          let pos ← seekInt offset
-          let (pairs, p) ← parseLocviewPairs env l sc.locviews pos
-          let (es, _) ← parseLocV4 env l p
-          out := out ++ [pairs ++ es]
-    return out
+    locV4Loop env l sc sc.allOffsets []
+
+/-! ### both generations present: `LocationListsPair` / `RangeListsPair` -/
+
+/-- the two list objects a pair holds: `_loc` / `_ranges` (version 4) and `_loclists` / `_rnglists` (version 5) -/
+structure ListsPair where
+  old : Lists
+  new : Lists
+
+/-- `LocationListsPair(streamv4, streamv5, structs, dwarfinfo)` / `RangeListsPair(…)` -/
+def mkPair (S : DwarfStructs) (asz : Nat) (v4 v5 : Bytes) : ListsPair :=
+  { old := { data := v4, S := S, asz := asz, version := 4 },
+    new := { data := v5, S := S, asz := asz, version := 5 } }
+
+/-- `LocationListsPair.get_location_list_at_offset(offset, die)`; `cu` is `die.cu` (`none`: no die given) -/
+def pairGetLocationListAtOffset (env : Env) (secs : Secs) (p : ListsPair) (offset : Int) (cu : Option Cu) :
+    R (List Val) :=
+  match cu with
+  | none => .error .dwarfError
+  | some c =>
+    let sec := if c.version ≥ 5 then p.new else p.old
+    getLocationListAtOffset env secs sec offset (some c)
+
+/-- `LocationListsPair.iter_location_lists()` -/
+def pairIterLocationLists : R (List (List Val)) := .error .dwarfError
+
+/-- `LocationListsPair.iter_CUs()` -/
+def pairLocIterCUs : R (List Val) := .error .dwarfError
+
+/-- `RangeListsPair.get_range_list_at_offset(offset, cu)` -/
+def pairGetRangeListAtOffset (env : Env) (secs : Secs) (p : ListsPair) (offset : Int) (cu : Option Cu) :
+    R (List Val) :=
+  match cu with
+  | none => .error .dwarfError
+  | some c =>
+    let sec := if c.version ≥ 5 then p.new else p.old
+    getRangeListAtOffset env secs sec offset (some c)
+
+/-- `RangeListsPair.get_range_list_at_offset_ex(offset)` -/
+def pairGetRangeListAtOffsetEx (env : Env) (p : ListsPair) (offset : Int) : R Val :=
+  getRangeListAtOffsetEx env p.new offset
+
+/-- `RangeListsPair.iter_range_lists()` -/
+def pairIterRangeLists : R (List (List Val)) := .error .dwarfError
+
+/-- `RangeListsPair.iter_CUs()` -/
+def pairRngIterCUs (env : Env) (p : ListsPair) (cus : List Cu) : R (List Val) := iterCUs env p.new false cus
+
+/-- `RangeListsPair.iter_CU_range_lists_ex(cu)` -/
+def pairIterCURangeListsEx (env : Env) (p : ListsPair) (cu : Val) : R (List Val) := iterCURangeListsEx env p.new cu
+
+/-- `RangeListsPair.translate_v5_entry(entry, cu)` -/
+def pairTranslateV5Entry (env : Env) (secs : Secs) (cu : Option Cu) (e : Val) : R Val :=
+  translateV5Entry env secs cu e
+
+/-- what `DWARFInfo.location_lists()` / `range_lists()` return -/
+inductive ListsObj
+  | absent
+  | single (l : Lists)
+  | pair (p : ListsPair)
+
+/-- `DWARFInfo.location_lists()` / `range_lists()`: `old` is .debug_loc / .debug_ranges, `new` is
+    .debug_loclists / .debug_rnglists (a section descriptor is a non-empty tuple: always true) -/
+def listsFactory (S : DwarfStructs) (asz : Nat) (old new : Option Bytes) : ListsObj :=
+  match new, old with
+  | some d5, none => .single { data := d5, S := S, asz := asz, version := 5 }
+  | none, some d4 => .single { data := d4, S := S, asz := asz, version := 4 }
+  | some d5, some d4 => .pair (mkPair S asz d4 d5)
+  | none, none => .absent
 
 end PyElf.Model.Lists
